@@ -156,7 +156,7 @@ def pick_target(ctx, want_body=None):
             continue
         if f["kind"] in ("func", "wrapped"):
             cands.append((f, None))
-        elif f["kind"] in ("method", "property", "sproperty"):
+        elif f["kind"] in ("method", "property", "sproperty", "cproperty"):
             rs = receivers(ctx.spec, f)
             if rs:
                 cands.append((f, {"inst": rng.choice(rs)}))
@@ -192,7 +192,7 @@ def gen_call_like(ctx, depth, recv_cls_of_caller=None):
         return None
     f, recv = t
     catch = rng.random() < 0.7
-    if f["kind"] in ("property", "sproperty"):
+    if f["kind"] in ("property", "sproperty", "cproperty"):
         return {"a": "getattr", "fid": f["fid"], "recv": recv, "script": gen_script(ctx, f, depth - 1, recv_cls=recv["inst"]), "catch": catch}
     skip = f["kind"] in ("method", "classmethod")
     args, kwargs = gen_args(ctx, f, skip)
